@@ -628,6 +628,14 @@ func workload(c *rt.Ctx) []Case {
 		}
 		add(Case{Pair: sqlm.Pair{A: a, B: b, Mode: modes[r.IntN(len(modes))]}, Name: fmt.Sprintf("unrelated%d", i), Src: "unrelated", NoOrder: true})
 	}
+	// 5b. nullability of PRIMARY KEY columns (fixed cases, identical at every seed): rowid tables
+	// report the declared nullability of a key column, WITHOUT ROWID tables force NOT NULL. Nothing else
+	// on the table changes (or only an index is added, which stays on the ALTER path), so nothing but
+	// the nullability change itself can bring the column to the desired state.
+	pkn := pkNullCases()
+	for _, cs := range pkn {
+		add(cs)
+	}
 	// 6. CLI leg: a seeded sample of everything above
 	if c.Atlas != "" {
 		r = c.Rand(5)
@@ -652,8 +660,74 @@ func workload(c *rt.Ctx) []Case {
 			cs.Name = "cli:" + cs.Name
 			cases = append(cases, cs)
 		}
+		for i, cs := range pkn {
+			if i%6 == 0 {
+				cs.CLI = true
+				cs.Name = "cli:" + cs.Name
+				add(cs)
+			}
+		}
 	}
 	return cases
+}
+
+// pkNullCases builds pairs whose only difference is the nullability of one primary-key column: single
+// text key, single INTEGER key (rowid alias), composite key, each as rowid and as WITHOUT ROWID table,
+// in both directions, with and without an index added on another column, current state created by Atlas
+// and by two raw DDL styles.
+func pkNullCases() []Case {
+	type shape struct {
+		name string
+		t    sqlm.Table
+		col  string
+	}
+	v := sqlm.Col{Name: "v", Type: "text", Null: true}
+	shapes := []shape{
+		{"text", sqlm.Table{Name: "pkn", Cols: []sqlm.Col{{Name: "code", Type: "text"}, v}, PK: []string{"code"}}, "code"},
+		{"integer", sqlm.Table{Name: "pkn", Cols: []sqlm.Col{{Name: "id", Type: "integer"}, v}, PK: []string{"id"}}, "id"},
+		{"composite", sqlm.Table{Name: "pkn", Cols: []sqlm.Col{{Name: "a", Type: "integer"}, {Name: "b", Type: "text"}, v}, PK: []string{"a", "b"}}, "b"},
+		{"composite-first", sqlm.Table{Name: "pkn", Cols: []sqlm.Col{{Name: "a", Type: "integer"}, {Name: "b", Type: "text"}, v}, PK: []string{"a", "b"}}, "a"},
+	}
+	var out []Case
+	modes := []string{"atlas", sqlm.Styles[0].Name, sqlm.Styles[1].Name}
+	n := 0
+	for _, sh := range shapes {
+		for _, wr := range []bool{false, true} {
+			for dir := 0; dir < 2; dir++ {
+				for _, withIdx := range []bool{false, true} {
+					notnull := sh.t.Clone()
+					notnull.WithoutRowID = wr
+					nullable := notnull.Clone()
+					nullable.Col(sh.col).Null = true
+					a, b := notnull, nullable
+					d := "to-null"
+					if dir == 1 {
+						a, b = nullable, notnull
+						d = "to-notnull"
+					}
+					if withIdx {
+						b = b.Clone()
+						b.Idx = append(b.Idx, sqlm.Idx{Name: "pkn_v", Parts: []sqlm.Part{{Col: "v"}}})
+					}
+					name := fmt.Sprintf("pk-null:%s/%s", sh.name, d)
+					if wr {
+						name += "/without-rowid"
+					}
+					if withIdx {
+						name += "+index"
+					}
+					rows := 0
+					if n%2 == 1 {
+						rows = 3
+					}
+					out = append(out, Case{Pair: sqlm.Pair{A: sqlm.Schema{Tables: []sqlm.Table{a}}, B: sqlm.Schema{Tables: []sqlm.Table{b}}, Mode: modes[n%len(modes)], Rows: rows},
+						Name: name, Src: "pk-null", Edits: []string{"pk.col.null." + d}})
+					n++
+				}
+			}
+		}
+	}
+	return out
 }
 
 func run(c *rt.Ctx) {
